@@ -319,6 +319,7 @@ class BamCase:
         self.tmp = tmp
         # a file whose every wrong result is one known defect class collapses into one signature
         self.one_sig = SIG_BIGCIGAR if any(len(r.get("cigar", [])) >= 16384 for r in self.records) else None
+        self.sig_prefix = "long_reads:" if spec.get("gen", [None])[0] == "long_reads" else ""
 
     def case(self, contract, param):
         return {"file": self.spec, "contract": contract, "param": param}
@@ -776,10 +777,15 @@ CONTRACTS = {"read_whole": c_read_whole, "interval": c_interval, "read_chunks": 
 
 def evaluate(col, bc, contract, param, nontrivial=True):
     col.case(bc.descr(contract, param), nontrivial=nontrivial, contract=contract)
+    # failures in the long-read files (generator "long_reads") form their own classes: signature prefix "long_reads:"
+    target = Collector("C16", col.tier, col.seed, "scratch") if bc.sig_prefix else col
     try:
-        CONTRACTS[contract](col, bc, param)
+        CONTRACTS[contract](target, bc, param)
     except Exception as e:  # a crash inside the checking code itself must not be silent
-        col.fail("checker:" + contract + ":exception:" + type(e).__name__, bc.case(contract, param), traceback.format_exc()[-500:])
+        target.fail("checker:" + contract + ":exception:" + type(e).__name__, bc.case(contract, param), traceback.format_exc()[-500:])
+    if target is not col:
+        for f in target.failures:
+            col.fail(bc.sig_prefix + f["signature"], f["case"], f["message"])
 
 
 # ----------------------------------------------------------------------------------------------------- enumeration
